@@ -380,7 +380,7 @@ TRUSTED = ['CPython re semantics as modelled in Base/Regex.v (validated per run 
 ASSUMPTIONS = ['mask strings: non-empty, no whitespace/quote/=/</backslash, containing no sanitize key (an empty or space-containing mask makes '
                'masking non-idempotent: password=abc def -> password= def -> password=; recorded as an observation in notes/C04.md)',
                'neutral surrounding text: whitespace-separated words without quotes or sanitize keys',
-               'the whole-function statement is proved on a bounded family only (C04_mask_whole_bounded); the universal theorems are per pattern/rendering']
+               'universal whole-function theorems cover one secret per message under the stated side conditions; several secrets per message: bounded + oracle']
 
 def extra_checks(rng, tier):
     """thorough tier: the larger bounded whole-function sweep (Model/C04_Sweep.family_thorough) checked by coqc
@@ -418,13 +418,17 @@ def extra_checks(rng, tier):
         yield ('coq_thorough_sweep', {'op': 'coq_sweep', 'shard': i, 'of': n},
                None if rc == 0 else 'thorough bounded sweep: shard %d/%d of family_thorough does not check: %s' % (i, n, out.strip()[-300:]))
 
-LEVEL_TEXT = ('Universal theorems (all messages / all keys over [a-z_] / all casings / all digit suffixes / all values of the class, any length): '
-              'the 35 documented keys are covered by the generated list; a message without a key is unchanged; every substitution of the function only '
-              'rewrites the text between its groups (frame); nine rendering theorems proved generically from the regenerated pattern TEMPLATES '
-              '(k=v, k="v", k=\'v\', k \'v\', --k v, <k>v</k>, "k": "v", k --flag v). The whole-function statement (all 35 keys x 12 substitutions in order, '
-              'value replaced exactly, idempotent) is proved on a BOUNDED family of 8 022 messages by kernel computation. The full statement is refuted by '
-              'the wildcard pattern (known finding K12, witness in Coq and replayed on the implementation); a second zone K14 (found here) is excluded too. '
-              'Two renderings (\'...k\': u\'v\' and the \'k\', \'--flag\', \'v\' command form) have no universal theorem (backtracking patterns): bounded + oracle only.')
-LEVEL_NOTE = ('Partial: the whole-function theorem is bounded; universal theorems are per pattern. Trusted: Coq kernel/vm_compute; translator gen_C04.py + regex_tr.py '
-              '(CPython re._parser, classes by CPython\'s matcher; concrete regexes proved equal to the templates at the keys); Base/Regex.v as the model of re '
-              '(validated each run against the module\'s compiled patterns); str.lower() table; secrets without backslash. No axioms (all Closed under the global context).')
+LEVEL_TEXT = ('Universal theorems (all messages / all keys over [a-z_] / all casings / digit suffixes / all values of the class, any length): '
+              'the 35 documented keys are covered by the generated list; a message without a key is unchanged; every substitution only rewrites the text '
+              'between its groups (frame); ELEVEN rendering theorems proved generically from the regenerated pattern TEMPLATES (the two backtracking '
+              'patterns via language soundness/completeness of the matcher and quote counting). UNIVERSAL WHOLE-FUNCTION theorems for all ten rendering '
+              'forms: for every generated key, value, mask and surrounding text without quote/-/</=/> characters, under decidable side conditions '
+              '(the key occurs only at the rendered position; no other key in lower(message)), mask_password replaces exactly the value and is idempotent '
+              'on the result - proved with a verified abstract "cannot match" checker for the other eleven patterns. Complement: BOUNDED sweeps by kernel '
+              'computation (6 248 single-secret messages, 48 four-secret messages). The full statement is refuted by the wildcard pattern (K12) and by K14 '
+              '(witness theorems); both zones are decidable predicates on the input, mirrored in the plugin.')
+LEVEL_NOTE = ('Partial where stated: multi-secret messages, keys containing another key (6 of 35) and quoted values containing the other quote kind are '
+              'covered by bounded sweeps + oracle only. Trusted: Coq kernel/vm_compute; translator gen_C04.py + regex_tr.py (CPython re._parser, classes by '
+              'CPython\'s matcher; concrete regexes proved equal to the templates at the keys; AST shape of mask_password and of the compile loop checked); '
+              'Base/Regex.v as the model of re (validated each run against the module\'s compiled patterns); str.lower() table; secrets without backslash. '
+              'No axioms (all Closed under the global context).')
